@@ -9,7 +9,7 @@ RULE = ("all loop-free closed graphs on n<=5 cells (n<=6 thorough, junction degr
         "stars with 3..8 tributaries of prescribed orders (every multiset over {1,2,3} up to size 5, random up to 8), "
         "random forests to 60 cells, upstream-area fields with ties for main_upstream; kernels and "
         "Flwdir/FlwdirRaster.stream_order; non-trivial = network has a confluence")
-ASSUMPTIONS = ["orders are modelled over Z: the uint8 storage would wrap only above order 255, which needs more than 2^254 cells",
+ASSUMPTIONS = ["orders are modelled over Z: for the Strahler order the uint8 storage cannot wrap (strahler_fits: order k needs 2^(k-1) cells); the classic order does wrap beyond 255 on deeply nested networks (known finding F13, 521 nodes)",
                "Strahler theorem assumes a downstream-closed mask (the property's domain)"]
 
 
